@@ -253,9 +253,7 @@ def grid_search(circuit_template: Union[CircuitTemplate, str], param_grid: Union
 
     # adjust input of simulation to combined network
     if inputs:
-        for inp_key, inp in inputs.copy().items():
-            inputs[f"all/{inp_key}"] = inp
-            inputs.pop(inp_key)
+        inputs = {f"all/{inp_key}": inp for inp_key, inp in inputs.items()}
 
     # adjust output of simulation to combined network
     outputs_new = {}
